@@ -430,3 +430,51 @@ for _p in ("C05", "C10", "C18"):
 # join released by the tail of the taken branch although the conditional itself is a completed parent)
 for _p in ("C02", "C06", "C18"):
     PROPS[_p]["streams"] = PROPS[_p]["streams"] + [G_COND_EMPTY]
+
+# ------------------------------------------------------------------ tasks that fit on no worker of the cluster
+# (an unplaceable parent decided together with its child: Z3 shadow probes; greedy runs that can never finish)
+G_Z3_INF = {"profile": "greedy", "opts": {"p_batch_loader": 0, "p_z3_probe": 1.0, "max_nodes": 3, "graphs": 1,
+                                          "max_invocations": 2, "infeasible_task": 0.35, "shapes": ["chain", "sp"]}}
+G_INF = {"profile": "greedy", "opts": {"p_batch_loader": 0, "infeasible_task": 0.3, "max_nodes": 5, "graphs": 2,
+                                       "p_enforce": 0.4, "p_drop": 0.4}}
+PROPS["C11"]["streams"] = PROPS["C11"]["streams"] + [G_Z3_INF]
+PROPS["C10"]["streams"] = PROPS["C10"]["streams"] + [G_Z3_INF]
+for _p in ("C05", "C06", "C18"):
+    PROPS[_p]["streams"] = PROPS[_p]["streams"] + [G_INF]
+
+# ------------------------------------------------------------------ C07: empty branches resolved at submission
+G_COND_EMPTY_RESOLVE = {"profile": "greedy", "opts": {"p_batch_loader": 0, "p_conditionals": 1.0, "p_empty_branch": 0.6,
+                                                      "p_zero_runtime": 0.0, "p_resolve": 1.0, "max_conds": 3,
+                                                      "p_shuffle_nodes": 0.5}}
+PROPS["C07"]["streams"] = PROPS["C07"]["streams"] + [G_COND_EMPTY_RESOLVE]
+
+# ------------------------------------------------------------------ side inputs that also feed a task after the join
+G_SIDE2 = {"profile": "greedy", "opts": {"p_batch_loader": 0, "p_conditionals": 1.0, "p_side_input": 0.8,
+                                         "p_side_after_join": 0.8, "shapes": ["sp", "sp", "forest"], "max_nodes": 8}}
+CH_SIDE2 = {"profile": "chaos", "opts": {"p_batch_loader": 0, "p_conditionals": 1.0, "p_side_input": 0.8,
+                                         "p_side_after_join": 0.8, "shapes": ["sp", "sp", "forest"], "max_nodes": 8}}
+PROPS["C02"]["streams"] = PROPS["C02"]["streams"] + [G_SIDE2, CH_SIDE2]
+for _p in ("C05", "C06", "C18"):
+    PROPS[_p]["streams"] = PROPS[_p]["streams"] + [G_SIDE2]
+
+# ------------------------------------------------------------------ C05: a side input that is still waiting when its graph completes
+# (one worker, several invocations in flight, the side input of a branch head needs the whole worker: when the
+# other branch is taken the graph's sinks complete while that input is still RELEASED; it must still be run)
+G_SIDE_HEAVY = {"profile": "greedy", "opts": {"p_batch_loader": 0, "p_conditionals": 1.0, "p_side_input": 1.0,
+                                              "heavy_side_input": True, "pools": 1, "workers": 1, "graphs": 3,
+                                              "max_nodes": 5, "shapes": ["sp", "forest"], "max_conds": 1,
+                                              "p_zero_runtime": 0.0, "p_variance": 0.0,
+                                              "release_kinds": ["fixed", "fixed", "poisson"], "max_invocations": 8,
+                                              "p_enforce": 0.0, "p_drop": 0.0,
+                                              "greedy_policies": ["LSF", "LSF", "EDF", "FIFO"]}}
+PROPS["C05"]["streams"] = PROPS["C05"]["streams"] + [G_SIDE_HEAVY] * 3
+PROPS["C18"]["streams"] = PROPS["C18"]["streams"] + [G_SIDE_HEAVY]
+
+# ------------------------------------------------------------------ task graphs whose sources arrive at different instants
+G_STAGGER = {"profile": "greedy", "opts": {"p_batch_loader": 0, "stagger_sources": True,
+                                           "shapes": ["forest", "dag", "forest"], "max_nodes": 6}}
+CH_STAGGER = {"profile": "chaos", "opts": {"p_batch_loader": 0, "stagger_sources": True,
+                                           "shapes": ["forest", "dag", "forest"], "max_nodes": 6}}
+PROPS["C18"]["streams"] = PROPS["C18"]["streams"] + [G_STAGGER, CH_STAGGER]
+PROPS["C02"]["streams"] = PROPS["C02"]["streams"] + [G_STAGGER]
+PROPS["C05"]["streams"] = PROPS["C05"]["streams"] + [G_STAGGER]
